@@ -306,10 +306,8 @@ impl WorkerOut {
 /// `announce`: print "R <index>" before each run (child-process mode, so that the parent can
 /// attribute an abort). `stop_after`: shared lowest failing index (threads) or None.
 fn worker_loop<K: Check>(k: &K, tier: Tier, seed: u64, w: u64, n: u64, total: u64, known: &[Known], stop_after: Option<&AtomicU64>, cur: Option<&Mutex<Option<(u64, Instant)>>>, announce: bool) -> WorkerOut {
-    use std::io::Write;
     let mut out = WorkerOut::default();
     let mut i = w;
-    let stdout = std::io::stdout();
     while i < total {
         if let Some(sa) = stop_after {
             if i > sa.load(Ordering::Relaxed) {
@@ -317,9 +315,9 @@ fn worker_loop<K: Check>(k: &K, tier: Tier, seed: u64, w: u64, n: u64, total: u6
             }
         }
         if announce {
-            let mut l = stdout.lock();
-            let _ = writeln!(l, "R {}", i);
-            let _ = l.flush();
+            // child-process mode: the abort handler and the child's watchdog report this index
+            CURRENT_RUN.store(i, Ordering::SeqCst);
+            CURRENT_RUN_STARTED_MS.store(process_ms(), Ordering::SeqCst);
         }
         let (s, ss) = run_seed(seed, k.num(), i);
         if let Some(c) = cur {
@@ -381,10 +379,93 @@ fn worker_loop<K: Check>(k: &K, tier: Tier, seed: u64, w: u64, n: u64, total: u6
     out
 }
 
+
+// ---------------------------------------------------------------------------------------------
+// Child-process mode: which run was executing when the process died or hung
+// ---------------------------------------------------------------------------------------------
+
+static CURRENT_RUN: AtomicU64 = AtomicU64::new(u64::MAX);
+static CURRENT_RUN_STARTED_MS: AtomicU64 = AtomicU64::new(0);
+
+fn process_ms() -> u64 {
+    static START: std::sync::OnceLock<Instant> = std::sync::OnceLock::new();
+    START.get_or_init(Instant::now).elapsed().as_millis() as u64
+}
+
+extern "C" {
+    fn signal(signum: i32, handler: extern "C" fn(i32)) -> usize;
+    fn write(fd: i32, buf: *const u8, count: usize) -> isize;
+    fn _exit(code: i32) -> !;
+}
+
+/// SIGABRT handler (failed or refused allocation, stack overflow reported by the runtime, abort in
+/// general): writes "R <run index>" to stdout with async-signal-safe calls only and exits.
+extern "C" fn on_abort(_sig: i32) {
+    let mut buf = [0u8; 40];
+    let mut n = CURRENT_RUN.load(Ordering::SeqCst);
+    let mut digits = [0u8; 24];
+    let mut k = 0;
+    if n == 0 {
+        digits[0] = b'0';
+        k = 1;
+    }
+    while n > 0 {
+        digits[k] = b'0' + (n % 10) as u8;
+        n /= 10;
+        k += 1;
+    }
+    let mut len = 0;
+    for b in b"\nR " {
+        buf[len] = *b;
+        len += 1;
+    }
+    while k > 0 {
+        k -= 1;
+        buf[len] = digits[k];
+        len += 1;
+    }
+    buf[len] = b'\n';
+    len += 1;
+    unsafe {
+        write(1, buf.as_ptr(), len);
+        _exit(134);
+    }
+}
+
+fn install_child_guards() {
+    const SIGABRT: i32 = 6;
+    unsafe {
+        signal(SIGABRT, on_abort);
+    }
+    // watchdog of this child: a run that exceeds the limit is reported as "H <index>" and the process exits
+    std::thread::spawn(|| loop {
+        std::thread::sleep(Duration::from_millis(500));
+        let i = CURRENT_RUN.load(Ordering::SeqCst);
+        if i != u64::MAX && process_ms().saturating_sub(CURRENT_RUN_STARTED_MS.load(Ordering::SeqCst)) > WATCHDOG_SECS * 1000 && CURRENT_RUN.load(Ordering::SeqCst) == i {
+            println!("\nH {}", i);
+            std::process::exit(3);
+        }
+    });
+}
+
 /// Entry point of a child process in isolated mode: runs its share and prints the result.
 pub fn child_worker<K: Check>(k: &K, tier: Tier, w: u64, n: u64, total: u64) -> i32 {
     let known = load_known().unwrap_or_default();
-    let out = worker_loop(k, tier, base_seed(), w, n, total, &known, None, None, true);
+    install_child_guards();
+    let mut out = worker_loop(k, tier, base_seed(), w, n, total, &known, None, None, true);
+    CURRENT_RUN.store(u64::MAX, Ordering::SeqCst);
+    // fingerprints travel as plain hex lines (millions of them would be slow as JSON)
+    for (tag, v) in [("FPS", std::mem::take(&mut out.fps)), ("CLS", std::mem::take(&mut out.stats.classes))] {
+        for chunk in v.chunks(4096) {
+            let mut line = String::with_capacity(chunk.len() * 17 + 4);
+            line.push_str(tag);
+            for x in chunk {
+                line.push(' ');
+                line.push_str(&format!("{:x}", x));
+            }
+            println!("{}", line);
+        }
+    }
     println!("OUT {}", out.to_j());
     0
 }
@@ -418,7 +499,7 @@ pub fn child_minimise<K: Check>(k: &K, tier: Tier, index: u64) -> i32 {
     }
 }
 
-fn spawn_children<K: Check>(k: &K, tier: Tier, total: u64, n: u64, seed: u64, names: &[&'static str]) -> (Vec<WorkerOut>, Vec<u64>) {
+fn spawn_children<K: Check>(k: &K, tier: Tier, total: u64, n: u64, seed: u64, names: &[&'static str]) -> (Vec<WorkerOut>, Vec<u64>, Vec<u64>) {
     use std::io::{BufRead, BufReader};
     use std::process::{Command, Stdio};
     let exe = std::env::current_exe().expect("current_exe");
@@ -442,36 +523,52 @@ fn spawn_children<K: Check>(k: &K, tier: Tier, total: u64, n: u64, seed: u64, na
             std::thread::spawn(move || {
                 let rd = BufReader::new(ch.stdout.take().unwrap());
                 let mut last: Option<u64> = None;
+                let mut hung: Option<u64> = None;
                 let mut out: Option<String> = None;
+                let mut fps: Vec<u64> = Vec::new();
+                let mut cls: Vec<u64> = Vec::new();
                 for line in rd.lines().map_while(|l| l.ok()) {
                     if let Some(r) = line.strip_prefix("R ") {
                         last = r.trim().parse().ok();
+                    } else if let Some(r) = line.strip_prefix("H ") {
+                        hung = r.trim().parse().ok();
+                    } else if let Some(r) = line.strip_prefix("FPS ") {
+                        fps.extend(r.split(' ').filter_map(|x| u64::from_str_radix(x, 16).ok()));
+                    } else if let Some(r) = line.strip_prefix("CLS ") {
+                        cls.extend(r.split(' ').filter_map(|x| u64::from_str_radix(x, 16).ok()));
                     } else if let Some(o) = line.strip_prefix("OUT ") {
                         out = Some(o.to_string());
                     }
                 }
                 let status = ch.wait().ok();
-                (last, out, status.map(|s| s.success()).unwrap_or(false))
+                (last, hung, fps, cls, out, status.map(|s| s.success()).unwrap_or(false))
             })
         })
         .collect();
+    let mut hung: Vec<u64> = Vec::new();
     for h in handles {
-        let (last, out, ok) = h.join().expect("reader thread");
+        let (last, hang, fps, cls, out, ok) = h.join().expect("reader thread");
         match (out, ok) {
             (Some(o), true) => match serde_json::from_str::<J>(&o) {
-                Ok(j) => outs.push(WorkerOut::from_j(&j, names)),
+                Ok(j) => {
+                    let mut w = WorkerOut::from_j(&j, names);
+                    w.fps = fps;
+                    w.stats.classes = cls;
+                    outs.push(w);
+                }
                 Err(e) => outs.push(WorkerOut { harness_err: Some(format!("worker output: {}", e)), ..Default::default() }),
             },
             _ => {
-                // the child died (abort on a refused or failed allocation, stack overflow, kill)
-                match last {
-                    Some(i) => aborted.push(i),
-                    None => outs.push(WorkerOut { harness_err: Some("a worker process died before its first run".into()), ..Default::default() }),
+                // the child died (abort on a refused or failed allocation, stack overflow, kill) or hung
+                match (hang, last) {
+                    (Some(i), _) => hung.push(i),
+                    (None, Some(i)) => aborted.push(i),
+                    (None, None) => outs.push(WorkerOut { harness_err: Some("a worker process died without reporting which run it was executing (killed from outside, or a crash that is not an abort)".into()), ..Default::default() }),
                 }
             }
         }
     }
-    (outs, aborted)
+    (outs, aborted, hung)
 }
 
 pub fn run_check<K: Check>(k: &K, tier: Tier, runs_override: Option<u64>) -> i32 {
@@ -495,11 +592,13 @@ pub fn run_check_mode<K: Check>(k: &K, tier: Tier, runs_override: Option<u64>, i
 
     let mut outs: Vec<WorkerOut> = Vec::new();
     let mut aborted: Vec<u64> = Vec::new();
+    let mut hung: Vec<u64> = Vec::new();
     if isolated {
         let names: Vec<&'static str> = k.expected_probes();
-        let (o, a) = spawn_children(k, tier, total, nthreads as u64, seed, &names);
+        let (o, a, h) = spawn_children(k, tier, total, nthreads as u64, seed, &names);
         outs = o;
         aborted = a;
+        hung = h;
     } else {
         let first_fail = AtomicU64::new(u64::MAX);
         let current: Vec<Arc<Mutex<Option<(u64, Instant)>>>> = (0..nthreads).map(|_| Arc::new(Mutex::new(None))).collect();
@@ -592,6 +691,11 @@ pub fn run_check_mode<K: Check>(k: &K, tier: Tier, runs_override: Option<u64>, i
 
     let mut exit = 0;
     let mut violations = 0;
+    hung.sort_unstable();
+    let is_hang = !hung.is_empty() && hung[0] <= aborted.first().copied().unwrap_or(u64::MAX);
+    if is_hang {
+        aborted.insert(0, hung[0]);
+    }
     let first_abort = aborted.first().copied();
     let first_failure = failures.first().map(|f| f.0);
     if first_abort.is_some() && first_abort.unwrap_or(u64::MAX) <= first_failure.unwrap_or(u64::MAX) {
@@ -601,8 +705,8 @@ pub fn run_check_mode<K: Check>(k: &K, tier: Tier, runs_override: Option<u64>, i
         exit = 1;
         let (s, ss) = run_seed(seed, k.num(), i);
         let case = k.gen(s, ss, tier);
-        let f = Fail::new("abort", "the process running this case died (allocation refused by the 1 GiB cap or failed, or stack overflow)".into());
-        println!("{}: run {} kills its worker process", k.id(), i);
+        let f = if is_hang { Fail::new("hang", format!("run did not finish within {} s", WATCHDOG_SECS)) } else { Fail::new("abort", "the process running this case died (allocation refused by the 1 GiB cap or failed, stack overflow, or another abort)".into()) };
+        println!("{}: run {} {}", k.id(), i, if is_hang { "hangs" } else { "kills its worker process" });
         match write_replay(k, seed, i, &case, &f, None) {
             Ok(p) => println!("VIOLATION property={} replay={}", k.id(), p.display()),
             Err(e) => {
